@@ -391,6 +391,9 @@ func checkC04(c *Ctx, r *Report, tier string) {
 	restoreCallbackDelegates(c, r, "C04.R6", "partition", "Hnsw")
 	walCompactionKeepsAnchor(c, r, "C04.R6")
 	batchItemsProcessedOneByOne(c, r, "C04.R6")
+	r.Rule("C04.R7", "no committed entry is skipped or replayed twice: the Ready loop applies the committed entries of every Ready, also of one that carries a snapshot; a received snapshot wipes the whole stored log, so a restart cannot re-deliver a stale prefix on top of it", 3)
+	readyPartsIndependent(c, r, "C04.R7")
+	persistOrder(c, r, "C04.R7")
 }
 
 // levelFromLog: the level value comes from GetLevel() of the entry or Level() of an existing vertex, possibly through
@@ -604,4 +607,8 @@ func checkC08(c *Ctx, r *Report, tier string) {
 	effectRule(c, r, "C08.R5", func(n string) bool { return strings.HasPrefix(n, "Hnsw.") })
 	restoreResetsBeforeSuccess(c, r, "C08.R5")
 	restoreCallbackDelegates(c, r, "C08.R5", "partition", "Hnsw")
+	r.Rule("C08.R6", "what is saved can be loaded and what is accepted can be saved: the entry point (saved by id) is always a live, stored vertex — the hand-over on removal skips tombstoned neighbours; the metadata validator bounds byte lengths, the quantity the writer narrows", 3)
+	borrow(c, r, "C01", "C01.R1", "C08.R6", "Remove")
+	borrow(c, r, "C01", "C01.R2", "C08.R6", "")
+	validatorMeasuresBytes(c, r, "C08.R6")
 }
